@@ -11,7 +11,7 @@ use tree_sitter::{Parser, Point, Range};
 
 pub struct C10;
 
-const LANGS: &[&str] = &["mini", "arith", "json", "indent", "heredoc", "glr", "tmpl"];
+const LANGS: &[&str] = &["mini", "arith", "json", "indent", "heredoc", "glr", "tmpl", "alias"];
 
 impl Check for C10 {
     fn id(&self) -> &'static str {
@@ -33,7 +33,7 @@ impl Check for C10 {
         vec![("#multi_line_edit", 0.15), ("#boundary_edit", 0.25), ("edits>=2", 0.30), ("tree:erroneous", 0.2)]
     }
     fn run_case(&self, ctx: &mut Ctx, t: &mut Tape) {
-        let lname = LANGS[t.weighted(&[30, 12, 12, 14, 12, 10, 10])];
+        let lname = LANGS[t.weighted(&[28, 11, 11, 13, 11, 9, 9, 8])];
         let lang = lang::zoo(lname);
         let class = if t.pct(60) { DocClass::Sentence } else { DocClass::Mutated };
         let bytes = doc::gen_doc(lang, class, t);
